@@ -1245,6 +1245,7 @@ Definition entry_quads (e : nkey * props) : list quad :=
          | None => []
          end
   end.
+Local Opaque get_prop.
 Lemma tops_plain es : forall fr,
   tops_to_rdf fr (flat_map (fun e => opt_list (jsonify_root info s [] [] e)) es)
   = (flat_map entry_quads es, fr).
@@ -1258,6 +1259,8 @@ Proof.
   - rewrite nodes_plain, IH. rewrite app_assoc. reflexivity.
   - rewrite IH, app_nil_r. reflexivity.
 Qed.
+
+Local Transparent get_prop.
 
 Lemma to_rdf_plain base :
   to_rdf base (document info s [] []) = flat_map entry_quads (nodes s).
@@ -1290,6 +1293,7 @@ Proof.
 Qed.
 
 (* every rendered quad is a quad of the (filtered) input, and conversely *)
+Local Opaque get_prop.
 Theorem roundtrip_plain base :
   list_nodes info o s = [] -> compounds info o s = [] ->
   forall q, In q (to_rdf base (serialise info o d)) <-> In q D.
@@ -1300,8 +1304,8 @@ Proof.
   assert (Hentry : forall k ps, In (k, ps) (nodes s) -> get_node s k = ps).
   { intros k ps H. unfold get_node. rewrite (In_aget _ nkey_eqb_spec _ _ _ Hnd H). reflexivity. }
   (* a quad read from node kk is in D *)
-  assert (Hsound : forall kk, In q (node_quads (fst kk) kk (get_node s kk)) -> In q D).
-  { intros kk H. apply in_node_quads in H; [|apply (get_node_wf info o s D HI)].
+  assert (Hsound : forall (kk : nkey) ps', get_node s kk = ps' -> In q (node_quads (fst kk) kk ps') -> In q D).
+  { intros kk ps' Eps' H. subst ps'. apply in_node_quads in H; [|apply (get_node_wf info o s D HI)].
     destruct H as [p [x [Hx Hr]]]. rewrite <- (pat_get s) in Hx.
     apply (inv_pat _ _ _ _ HI) in Hx as [q0 [Hq0 [[E1 [E2 E3]]|[g [_ [_ [E _]]]]]]].
     - rewrite <- nkey_eta in Hr. subst. rewrite type_shortcut_lossless in Hr. congruence.
@@ -1316,15 +1320,15 @@ Proof.
   - intros [[k ps] [He H]]. pose proof (Hentry _ _ He) as Eps. unfold entry_quads in H. simpl in H.
     destruct ps as [|e0 ps]; [destruct H|]. destruct k as [[g|] id]; simpl in H; [destruct H|].
     apply in_app_iff in H as [H|H].
-    + apply (Hsound (None, id)). simpl. rewrite Eps. exact H.
+    + apply (Hsound _ _ Eps). exact H.
     + destruct (get_prop (e0 :: ps) PGraph) as [v|] eqn:Ev; [|destruct H].
       apply in_flat_map in H as [x [Hx H]]. destruct x as [l|k2]; [destruct H|]. simpl in H.
       assert (Hpat : In (ONode k2) (pat (nodes s) (None, id) PGraph)).
-      { rewrite (pat_get s), Eps, Ev. exact Hx. }
+      { unfold gkey in *. rewrite (pat_get s), Eps, Ev. exact Hx. }
       apply (inv_pat _ _ _ _ HI) in Hpat as [q0 [Hq0 [[_ [E _]]|[g [Eg [Ek [_ Ex]]]]]]].
       { destruct (pkey_of_cases info o q0) as [E'|E']; rewrite E' in E; discriminate. }
       injection Ek as ->. injection Ex as ->.
-      apply (Hsound (skey q0)). unfold skey at 1. simpl. rewrite Eg.
+      apply (Hsound (skey q0) _ eq_refl). unfold skey at 1. simpl. rewrite Eg.
       destruct (get_node s (skey q0)); [destruct H|exact H].
   - intros Hq. pose proof (Hcomplete q Hq) as Hin.
     assert (Hne : get_node s (skey q) <> []).
@@ -1347,6 +1351,8 @@ Proof.
       apply in_app_iff. left. exact Hin.
 Qed.
 
+Local Transparent get_prop.
+
 (* a sufficient, purely syntactic condition: no quad "x rdf:rest rdf:nil" and no compound-literal mode *)
 Corollary roundtrip_no_lists base :
   (forall q, In q d -> ~ (qp q = c_rest /\ qo q = c_nil)) -> compound o = false ->
@@ -1362,3 +1368,113 @@ Proof.
   - unfold compounds. rewrite Hc. reflexivity.
 Qed.
 End RoundTripPlain.
+
+(* ================================================================== *)
+(* the general round trip: statement, and meaning of the checker       *)
+(* ================================================================== *)
+Lemma quad_eqb_spec a b : reflect (a = b) (quad_eqb a b).
+Proof.
+  destruct a as [s1 p1 o1 g1], b as [s2 p2 o2 g2]. unfold quad_eqb; simpl.
+  destruct (N.eqb_spec s1 s2); simpl; [|constructor; congruence].
+  destruct (N.eqb_spec p1 p2); simpl; [|constructor; congruence].
+  destruct (N.eqb_spec o1 o2); simpl; [|constructor; congruence].
+  change (opt_eqb N.eqb g1 g2) with (gkey_eqb g1 g2).
+  destruct (gkey_eqb_spec g1 g2); constructor; congruence.
+Qed.
+Lemma subset_q_spec a b : subset_q a b = true <-> forall q, In q a -> In q b.
+Proof.
+  unfold subset_q. rewrite forallb_forall. split; intros H q Hq; specialize (H q Hq).
+  - apply existsb_exists in H as [q' [Hq' E]]. destruct (quad_eqb_spec q q'); [subst; auto|discriminate].
+  - apply existsb_exists. exists q. split; auto. destruct (quad_eqb_spec q q); congruence.
+Qed.
+Lemma nodupb_spec l : nodupb l = true -> NoDup l.
+Proof.
+  induction l as [|x l IH]; simpl; [constructor|]. rewrite andb_true_iff, negb_true_iff.
+  intros [H1 H2]. constructor; [|auto]. intros Hin.
+  assert (existsb (N.eqb x) l = true) by (apply existsb_exists; exists x; split; auto; apply N.eqb_refl).
+  congruence.
+Qed.
+
+(* what the boolean checker evaluated on every correspondence case establishes: the document read by
+   the reference reader is the expressible part of the input up to a renaming of the fresh nodes
+   which is injective, maps fresh identifiers (>= base > every input identifier) to blank nodes of
+   the input that the document does not mention *)
+Theorem roundtrip_doc_ok_sound info d base doc : roundtrip_doc_ok info d base doc = true ->
+  let r := witness base doc in
+  (forall q, In q (map (rename_q r) (to_rdf base doc)) <-> In q (filter (is_jsonld info) d))
+  /\ NoDup (map snd r) /\ NoDup (map fst r)
+  /\ (forall p, In p r -> base <= fst p /\ kind info (snd p) = KBlank
+                           /\ ~ In (snd p) (ids_of (to_rdf base doc)))
+  /\ (forall x, In x (ids_of d) -> x < base).
+Proof.
+  unfold roundtrip_doc_ok. rewrite !andb_true_iff.
+  intros [[[[[[H1 H2] H3] H4] H5] H6] H7]. cbv zeta.
+  rewrite subset_q_spec in H1, H2.
+  split; [intros q; split; auto|].
+  split; [apply nodupb_spec; exact H3|]. split; [apply nodupb_spec; exact H4|]. split.
+  - intros p Hp. rewrite forallb_forall in H5, H7. specialize (H5 p Hp).
+    apply andb_true_iff in H5 as [Ha Hb]. apply N.leb_le in Ha. split; [exact Ha|]. split.
+    + unfold kind. destruct (ti_kind (info (snd p))); try discriminate. reflexivity.
+    + intros Hin. specialize (H7 (snd p) (in_map snd _ _ Hp)). apply negb_true_iff in H7.
+      assert (existsb (N.eqb (snd p)) (ids_of (to_rdf base doc)) = true)
+        by (apply existsb_exists; exists (snd p); split; auto; apply N.eqb_refl).
+      congruence.
+  - intros x Hx. rewrite forallb_forall in H6. apply N.ltb_lt. auto.
+Qed.
+
+(* the identifiers 1..8 denote the IRIs rdf:first ... rdf:language *)
+Definition wf_info (info : N -> tinfo) : Prop :=
+  forall c, In c [c_first; c_rest; c_nil; c_type; c_List; c_value; c_direction; c_language] ->
+  kind info c = KIri.
+
+(* THE FULL ROUND TRIP (stated, not proved in general): for every dataset, options and base above
+   the identifiers of the dataset, the checker succeeds, i.e. (roundtrip_doc_ok_sound) reading the
+   emitted document gives a dataset isomorphic to the expressible part of the input. *)
+Definition roundtrip_full_statement : Prop :=
+  forall info o d base, wf_info info -> (forall x, In x (ids_of d) -> x < base) ->
+  roundtrip_doc_ok info d base (serialise info o d) = true.
+
+(* the part that is proved: when no node is suppressed (no list compaction, no compound literal),
+   the reference reader returns exactly the expressible quads, without any renaming *)
+Theorem roundtrip_partial info o d base :
+  list_nodes info o (process info o d) = [] -> compounds info o (process info o d) = [] ->
+  forall q, In q (to_rdf base (serialise info o d)) <-> In q (filter (is_jsonld info) d).
+Proof. apply roundtrip_plain. Qed.
+
+(* ================================================================== *)
+(* literal level: the i18n-datatype shortcut (patch f)                 *)
+(* ================================================================== *)
+Lemma split_us_some s a b : split_us s = (a, Some b) -> s = a ++ 95 :: b.
+Proof.
+  revert a b. induction s as [|c s IH]; intros a b; simpl; [discriminate|].
+  destruct (N.eqb_spec c 95) as [->|].
+  - intros E. injection E as E1 E2. subst. reflexivity.
+  - destruct (split_us s) as [a' b'] eqn:E. intros E'. injection E' as E1 E2. subst.
+    simpl. f_equal. apply IH. reflexivity.
+Qed.
+Lemma lower_no_upper s : no_upper s = true -> lower s = s.
+Proof.
+  induction s as [|c s IH]; simpl; [reflexivity|]. rewrite andb_true_iff, negb_true_iff.
+  intros [H1 H2]. unfold lower1. rewrite H1. f_equal. apply IH. exact H2.
+Qed.
+Lemma is_direction_nil : is_direction [] = false.
+Proof. reflexivity. Qed.
+
+(* whenever "@direction" is used, the reference reader rebuilds the same datatype; otherwise the
+   datatype is written as is *)
+Theorem i18n_shortcut_lossless wf suffix : i18n_back (i18n_value wf suffix) = suffix.
+Proof.
+  unfold i18n_value. destruct (split_us suffix) as [tag od] eqn:E.
+  destruct od as [d|]; [|rewrite is_direction_nil; reflexivity].
+  apply split_us_some in E.
+  destruct (is_direction d && _) eqn:C; [|reflexivity].
+  apply andb_true_iff in C as [_ C]. simpl. destruct tag as [|c tag]; [exact (eq_sym E)|].
+  apply andb_true_iff in C as [_ C]. rewrite (lower_no_upper _ C). exact (eq_sym E).
+Qed.
+
+(* the original conversion loses the datatype: i18n#en, i18n#EN_ltr, i18n#en_up *)
+Theorem prefix_f_refuted :
+  i18n_back_original (i18n_value_original [101; 110]) = None
+  /\ i18n_back_original (i18n_value_original [69; 78; 95; 108; 116; 114]) = Some [101; 110; 95; 108; 116; 114]
+  /\ i18n_back_original (i18n_value_original [101; 110; 95; 117; 112]) = None.
+Proof. vm_compute. auto. Qed.
